@@ -521,6 +521,19 @@ func (c *vCase) run(out *vOut, idx int) {
 			out.Linef("viol sig=C12/%s key=%s input=%s want=%s got=%s", area, vHexS(k), vHexS(vRender(ts)), vHexS(*want), vHexS(got))
 		}
 	}
+	// (1b) when resolution succeeds, no complete reference to a known provider key is left anywhere in the result
+	// (provider values are themselves expanded). Judged only when no escape can be involved: every '$' of every source
+	// string and provider value is directly followed by '{'.
+	if c.dollarsAllOpen() {
+		out.Linef("stat leftover_checked 1")
+		if sc, n, where := c.leftoverRef(raw); where != "" {
+			sig := "C12/expand/known-reference-left-in-output"
+			if e := c.provs[sc][n]; e != nil && !e.isRaw && strings.Contains(string(e.yaml), "${"+sc+":"+n+"}") {
+				sig = "C12/cycle/returned-as-fixed-point"
+			}
+			out.Linef("viol sig=%s ref=%s:%s in=%s", sig, vHexS(sc), vHexS(n), vHexS(where))
+		}
+	}
 	// (2) text with neither a complete reference nor $$ is unchanged; (3) merge is the recursive right-biased merge
 	plain := true
 	var spec map[string]any = map[string]any{}
@@ -554,6 +567,91 @@ func (c *vCase) run(out *vOut, idx int) {
 			}
 		}
 	}
+}
+
+func vDollarsOpen(s string) bool {
+	for i := 0; i < len(s); i++ {
+		if s[i] == '$' && (i+1 >= len(s) || s[i+1] != '{') {
+			return false
+		}
+	}
+	return true
+}
+
+func vWalkStrings(v any, f func(string)) {
+	switch x := v.(type) {
+	case string:
+		f(x)
+	case expandedValue:
+		f(x.Original)
+		vWalkStrings(x.Value, f)
+	case []any:
+		for _, e := range x {
+			vWalkStrings(e, f)
+		}
+	case map[string]any:
+		for _, e := range x {
+			vWalkStrings(e, f)
+		}
+	}
+}
+
+// every '$' in every source string and every provider value is directly followed by '{': no escape can arise
+func (c *vCase) dollarsAllOpen() bool {
+	ok := true
+	chk := func(s string) {
+		if !vDollarsOpen(s) {
+			ok = false
+		}
+	}
+	for _, s := range c.srcs {
+		vWalkStrings(s, chk)
+	}
+	for _, tab := range c.provs {
+		for _, e := range tab {
+			if e.isRaw {
+				vWalkStrings(e.raw, chk)
+			} else {
+				chk(string(e.yaml))
+			}
+		}
+	}
+	return ok
+}
+
+// first complete reference `${scheme:name}` / `${name}` to a provider key that exists, in any string of the result
+func (c *vCase) leftoverRef(res any) (scheme, name, where string) {
+	vWalkStrings(res, func(s string) {
+		if where != "" {
+			return
+		}
+		for i := 0; i+1 < len(s); i++ {
+			if s[i] != '$' || s[i+1] != '{' {
+				continue
+			}
+			j := strings.IndexByte(s[i+2:], '}')
+			if j < 0 {
+				return
+			}
+			body := s[i+2 : i+2+j]
+			if strings.Contains(body, "$") {
+				continue // an inner "${" follows and is looked at on its own
+			}
+			sc, n := c.defaultScheme, body
+			if k := strings.IndexByte(body, ':'); k >= 0 {
+				sc, n = body[:k], body[k+1:]
+			}
+			if tab, ok := c.provs[sc]; ok && sc != "" {
+				if e, ok := tab[n]; ok {
+					if _, err := e.retrieve(); err == nil {
+						scheme, name, where = sc, n, s
+						return
+					}
+				}
+			}
+		}
+	})
+	return
 }
 
 // what a Go string field receives (expandedValue -> Original)
@@ -616,19 +714,21 @@ var vPlainYAML = []string{"foo", "bar baz", "8080", "true", "1.5", "0x10", "", "
 	"[1, two]", "{k: v}", `"q"`, "~", "- a\n- b", "multi\nline", "-7", "A", "env:B", "{env:B}", "1e3", "null", "0777", "{", "}"}
 
 var vDollarYAML = []string{"${env:B}", "pre-${file:C}-post", "$$", "$${env:B}", "x$y", "$", "${env:A}", "${ab:${env:D}}",
-	"$$${env:B}", "${B}", "${env:B}${env:C}", "a$$b", "${zz:A}", "[\"${env:B}\", 2]", "{k: \"${file:C}\"}", "${env:$B}", "$}", "${", "$${",
-	"[a$$b, 1]", "{k: x$$y}", "[\"$${env:B}\"]", "{k: \"$$${env:B}\"}",
+	"$$${env:B}", "${B}", "${env:B}${env:C}", "a$$b", "${zz:A}", "[\"${env:E}\", 2]", "{k: \"${env:F}\"}", "${env:$B}", "$}", "${", "$${",
+	"[a$$b, 1]", "{k: x$$y}", "[\"$${env:B}\"]", "{k: \"$$${env:F}\"}",
 	"{e: \"${env:E}\", i: \"i ${env:E}\"}", "{e: \"${env:E}\"}"}
 
 func vGenProviders(c *vCase, rnd *rand.Rand, pPlain float64) {
 	defer func() {
-		// env:E and env:F never refer back to another name: values with two occurrences of ${env:E} can then not sit
-		// on a reference cycle (with ReplaceAll-style code such a cycle doubles the string every round: memory blow-up)
+		// env:E and env:F never refer back to another name, and structured (map/list) provider values only refer to
+		// them: a structured value can then not sit on a reference cycle. Such a cycle costs O(rounds^3) (every nesting
+		// level re-expands its own growing Original) and, with ReplaceAll-style code, values with two occurrences of
+		// a reference double the string every round (memory blow-up).
 		if e, ok := c.provs["env"]["F"]; ok && (e.isRaw || strings.Contains(string(e.yaml), "$")) {
 			c.setYAML("env", "F", vPlainYAML[rnd.IntN(len(vPlainYAML))])
 		}
 		if e, ok := c.provs["env"]["E"]; ok && (e.isRaw || strings.Contains(string(e.yaml), "$")) {
-			c.setYAML("env", "E", []string{"{f: \"${env:F}\"}", "{f: \"${env:F}\", g: 1}", "plain"}[rnd.IntN(3)])
+			c.setYAML("env", "E", []string{"{f: \"${env:F}\"}", "{f: \"${env:F}\", g: 1}", "plain", "${env:F}", "e-${env:F}", "[\"${env:F}\", 0]"}[rnd.IntN(6)])
 		}
 	}()
 	for _, s := range vSchemes {
@@ -867,7 +967,118 @@ func vCorpus() []*vCase {
 		map[string]any{"a": map[string]any{"x": map[string]any{"deep": true}}, "n": map[string]any{"m": 1}},
 	}
 	cs = append(cs, c)
+	// a one-element cycle whose provider value is textually the reference itself, embedded in a longer string: an error
+	mk("corpus", "", "http://${env:H}:4317", func(c *vCase) { c.setYAML("env", "H", "${env:H}") })
+	// indirect references (provider value contains a reference) in a NON-LAST list position, in map values, nested
+	ind := func(c *vCase) {
+		c.setYAML("env", "L0", "a-${env:L1}")
+		c.setYAML("env", "L1", "b-${env:L2}")
+		c.setYAML("env", "L2", "end")
+	}
+	mk("corpus", "", []any{"${env:L0}", "${env:L2}", "lit"}, ind)
+	mk("corpus", "", []any{[]any{"x ${env:L0} y", "lit"}, map[string]any{"m": "${env:L0}", "n": "${env:L2}"}, 1}, ind)
+	mk("corpus", "", map[string]any{"a": "${env:L0}", "b": "lit", "c": []any{map[string]any{"d": []any{"${env:L1}", "z"}}}}, ind)
+	// structured value with two occurrences over a 3-deep chain: the original text needs more rounds than the parsed value
+	mk("corpus", "", "${env:S0}", func(c *vCase) {
+		c.setYAML("env", "S0", "{env: \"${env:S1}\", inline: \"inline ${env:S1}\"}")
+		c.setYAML("env", "S1", "{env2: \"${env:S2}\"}")
+		c.setYAML("env", "S2", "{value: 123}")
+	})
 	return cs
+}
+
+// vGenChain: providers env:L0 -> L1 -> … -> Lk (k = 1..3), each link mentioning the next once or twice, as a whole
+// value, embedded, or inside a structured (map/list) YAML value; the last link is plain — or, 1 in 30, refers to
+// itself (a cycle: must be an error). The config refers to the links from list elements (the deepest chain preferably
+// NOT in the last position), map values and nested combinations. No '$' other than in "${": the leftover oracle applies.
+func vGenChain(c *vCase, rnd *rand.Rand) {
+	depth := 1 + rnd.IntN(3)
+	refTo := func(i int) string {
+		if c.defaultScheme != "" && rnd.IntN(3) == 0 {
+			return "${L" + strconv.Itoa(i) + "}"
+		}
+		return "${env:L" + strconv.Itoa(i) + "}"
+	}
+	for i := 0; i < depth; i++ {
+		r := refTo(i + 1)
+		var y string
+		switch rnd.IntN(7) {
+		case 0:
+			y = r
+		case 1:
+			y = "p" + r + "s"
+		case 2:
+			y = r + "-" + r
+		case 3:
+			y = "{a: \"" + r + "\", b: \"in " + r + "\"}"
+		case 4:
+			y = "[\"" + r + "\", 1]"
+		case 5:
+			y = "{m: {n: \"" + r + "\"}}"
+		case 6:
+			y = "[\"x\", \"" + r + "\", \"" + refTo(depth) + "\"]"
+		}
+		c.setYAML("env", "L"+strconv.Itoa(i), y)
+	}
+	last := "L" + strconv.Itoa(depth)
+	if rnd.IntN(30) == 0 {
+		if rnd.IntN(4) > 0 {
+			c.setYAML("env", last, "${env:"+last+"}")
+		} else {
+			c.setYAML("env", last, "c-${env:"+last+"}")
+		}
+	} else {
+		c.setYAML("env", last, []string{"v", "8080", "{value: 123}", "[1, 2]", "true", "x y", "", "a}b"}[rnd.IntN(8)])
+	}
+	leaf := func(deep bool) any {
+		i := rnd.IntN(depth + 1)
+		if deep {
+			i = 0
+		}
+		switch rnd.IntN(8) {
+		case 0, 1, 2:
+			return refTo(i)
+		case 3:
+			return "pre " + refTo(i) + " post"
+		case 4:
+			return "http://" + refTo(i) + ":4317"
+		case 5:
+			return refTo(i) + refTo(depth)
+		case 6:
+			return "lit"
+		}
+		return rnd.IntN(10)
+	}
+	list := func() []any {
+		n := 2 + rnd.IntN(3)
+		l := make([]any, n)
+		deepAt := rnd.IntN(n - 1) // never the last position
+		for i := range l {
+			l[i] = leaf(i == deepAt)
+		}
+		if rnd.IntN(3) == 0 {
+			l[n-1] = "lit"
+		}
+		return l
+	}
+	m := map[string]any{}
+	for _, k := range vKeys[:1+rnd.IntN(3)] {
+		switch rnd.IntN(6) {
+		case 0:
+			m[k] = list()
+		case 1:
+			m[k] = []any{list(), leaf(false)}
+		case 2:
+			m[k] = map[string]any{"a": leaf(true), "b": leaf(false), "l": list()}
+		case 3:
+			m[k] = []any{map[string]any{"x": leaf(true), "y": leaf(false)}, leaf(false)}
+		case 4:
+			m[k] = leaf(true)
+		case 5:
+			m[k] = []any{[]any{[]any{leaf(true), "lit"}, leaf(false)}, map[string]any{"d": list()}}
+		}
+	}
+	c.srcs = []any{m}
 }
 
 func vGenCase(idx int, rnd *rand.Rand) *vCase {
@@ -875,7 +1086,10 @@ func vGenCase(idx int, rnd *rand.Rand) *vCase {
 	if rnd.IntN(2) == 0 {
 		c.defaultScheme = "env"
 	}
-	switch idx % 4 {
+	switch idx % 5 {
+	case 4: // reference chains through provider values, placed in lists (non-last positions), map values, nested
+		c.kind = "chain"
+		vGenChain(c, rnd)
 	case 0: // token-built values only
 		c.kind = "tok"
 		c.tokOnly = true
